@@ -29,7 +29,7 @@ REQUIRED_CLAUSES = ["mass.spd", "mass.sum_JGJ", "fd_inverts_id", "decomposition"
 
 def plan(tier, seed):
     if tier == "quick":
-        return [{"n": 18, "ntraj": 1, "timeout_s": 1800} for _ in range(16)]
+        return [{"n": 40, "ntraj": 1, "timeout_s": 1800} for _ in range(16)]
     return [{"n": 1250, "ntraj": 12, "timeout_s": 14400} for _ in range(16)]
 
 
